@@ -399,6 +399,7 @@ pcgssvx(int_t nprocs, superlumt_options_t *superlumt_options, SuperMatrix *A,
     SuperMatrix *AA; /* A in NC format used by the factorization routine.*/
     SuperMatrix AC; /* Matrix postmultiplied by Pc */
     int_t       colequ, equil, dofact, notran, rowequ;
+    int_t     conjB;
     char      norm[1];
     trans_t   trant;
     int_t     j, info1;
@@ -639,6 +640,15 @@ pcgssvx(int_t nprocs, superlumt_options_t *superlumt_options, SuperMatrix *A,
 	/* ------------------------------------------------------------
 	   Compute the solution matrix X.
 	   ------------------------------------------------------------*/
+	/* A stored by rows and A**H*X = B wanted: with AA = A**T this is
+	   conj(AA)*X = B, i.e. AA*conj(X) = conj(B).  Solve and refine the
+	   conjugated system (same error bounds), conjugate back below. */
+	conjB = ( A->Stype == SLU_NR && superlumt_options->trans == CONJ );
+	if ( conjB )
+	    for (j = 0; j < nrhs; j++)
+		for (i = 0; i < B->nrow; i++)
+		    Bmat[i + j*ldb].i = -Bmat[i + j*ldb].i;
+
 	for (j = 0; j < nrhs; j++)    /* Save a copy of the right hand sides */
 	    for (i = 0; i < B->nrow; i++)
 		Xmat[i + j*ldx] = Bmat[i + j*ldb];
@@ -675,6 +685,13 @@ pcgssvx(int_t nprocs, superlumt_options_t *superlumt_options, SuperMatrix *A,
 		}
 	}
 	
+	if ( conjB )
+	    for (j = 0; j < nrhs; j++)
+		for (i = 0; i < B->nrow; i++) {
+		    Bmat[i + j*ldb].i = -Bmat[i + j*ldb].i;
+		    Xmat[i + j*ldx].i = -Xmat[i + j*ldx].i;
+		}
+
 	/* Set INFO = A->ncol+1 if the matrix is singular to 
 	   working precision.*/
 	if ( *rcond < slamch_("E") ) *info = A->ncol + 1;
